@@ -102,6 +102,10 @@ static void reb_simulation_add_local(struct reb_simulation* const r, struct reb_
         // simulation was saved/served/copied, which trims N_allocated, between a removal and an addition).
         reb_integrator_ias15_reset(r);
     }
+    if (r->integrator == REB_INTEGRATOR_JANUS){
+        // JANUS notices a changed particle number, but not a removal followed by an addition between two steps.
+        r->ri_janus.recalculate_integer_coordinates_this_timestep = 1;
+    }
     if (r->integrator == REB_INTEGRATOR_MERCURIUS){
         struct reb_integrator_mercurius* rim = &(r->ri_mercurius);
         if (r->ri_mercurius.mode==0){ //WHFast part
@@ -407,6 +411,9 @@ int reb_simulation_remove_particle(struct reb_simulation* const r, int index, in
     }
     if (r->integrator == REB_INTEGRATOR_IAS15){
         reb_integrator_ias15_reset(r); // see reb_simulation_add_local
+    }
+    if (r->integrator == REB_INTEGRATOR_JANUS){
+        r->ri_janus.recalculate_integer_coordinates_this_timestep = 1; // see reb_simulation_add_local
     }
     if (r->integrator == REB_INTEGRATOR_MERCURIUS){
         struct reb_integrator_mercurius* rim = &(r->ri_mercurius);
